@@ -494,6 +494,18 @@ class Sched:
                 leaked.append(t.name)
         return leaked
 
+    def dispose(self):
+        """end of run, after kill_all(): let go of everything that belongs to the run's world (thread objects, the predicates of
+        threads that were killed while blocked - closures over sockets, queues, locks -, timers). What is left is plain data
+        (digests, counters, choices): whoever drops the last reference to this scheduler, wherever, finalises nothing."""
+        for t in self.threads:
+            t.pred = None
+            t.real = None
+        self.timers = []
+        self.by_ident = {}
+        self.cur = None
+        self.replay = None
+
     def alive_threads(self):
         return [t for t in self.threads if t.state != "done"]
 
@@ -1001,7 +1013,20 @@ def code_closure(*roots, depth=1, skip_names=()):
     import types as _types
     out = list(code_objects(*roots))
     seen = set(id(c) for c in out)
-    mods = [m for n, m in sorted(_sys.modules.items()) if (n == "Pyro5" or n.startswith("Pyro5.")) and m is not None]
+    # The set of modules that are searched must not depend on what happens to be imported so far (that differs between a
+    # worker process that has run other plans and a fresh interpreter: the pre-emption points, and with them the run, would
+    # differ): every top-level module of the Pyro5 package, imported here in name order.
+    import importlib as _il
+    import pkgutil as _pk
+    import Pyro5 as _P
+    mods = []
+    for info in sorted(_pk.iter_modules(_P.__path__), key=lambda i: i.name):
+        if info.ispkg or info.name.startswith("_"):
+            continue
+        try:
+            mods.append(_il.import_module("Pyro5." + info.name))
+        except Exception:  # noqa - a module that cannot be imported here contributes nothing
+            pass
     index = {}
     for m in mods:
         for n, v in sorted(vars(m).items()):
